@@ -168,6 +168,12 @@ func circuitTypeOf(p *core.Program, anchor string) (*types.Named, *ssa.Function,
 	if fn == nil {
 		return nil, nil, "anchor prover." + anchor + " not found"
 	}
+	return circuitTypeOfFn(p, fn)
+}
+
+// circuitTypeOfFn: the same, starting from a given function.
+func circuitTypeOfFn(p *core.Program, fn *ssa.Function) (*types.Named, *ssa.Function, string) {
+	anchor := fn.Name()
 	seen := map[*ssa.Function]bool{}
 	var found *types.Named
 	var where *ssa.Function
